@@ -308,6 +308,21 @@ Proof.
     destruct (q <=? length (votes (nodes s i) ++ [v])); cbn [leaders]; auto. apply in_cons; exact Hx.
 Qed.
 
+(* a leader-history entry that appears in one step is the node that just won its election *)
+Lemma step_leaders_new : forall s s', step s s' -> forall t i, In (t, i) (leaders s') ->
+  In (t, i) (leaders s) \/
+  (i < n /\ rl (nodes s' i) = Leader /\ term (nodes s' i) = t /\
+   rl (nodes s i) = Candidate /\ term (nodes s i) = t).
+Proof.
+  intros s s' St t0 i0 Hx. destruct St; cbn [leaders] in Hx; try (left; exact Hx).
+  subst nd. cbv zeta in *. destruct (rl (nodes s i)) eqn:Er; try (left; exact Hx).
+    destruct (term (nodes s i) <? t); [left; exact Hx|].
+    destruct (g && (t =? term (nodes s i)) && negb (existsb (Nat.eqb v) (votes (nodes s i)))); [|left; exact Hx].
+    destruct (q <=? length (votes (nodes s i) ++ [v])); cbn [leaders] in Hx; [|left; exact Hx].
+    destruct Hx as [E|Hx]; [|left; exact Hx]. injection E as <- <-. right.
+    cbn [nodes]. rewrite upd_same. cbn. auto.
+Qed.
+
 Inductive star : sys -> sys -> Prop :=
 | star_refl : forall s, star s s
 | star_step : forall s s' s'', step s s' -> star s' s'' -> star s s''.
